@@ -106,6 +106,10 @@ pub struct Checked {
 
 /// in-process replica vs reference; optionally the real binary's hook trace vs the replica
 pub fn check_program(rep: &Report, p: &Program, text: &str, core_id: Option<String>, cli: bool, tag: &str) -> Checked {
+    check_program_with(rep, p, text, core_id, cli, tag, 5000, 20_000)
+}
+
+pub fn check_program_with(rep: &Report, p: &Program, text: &str, core_id: Option<String>, cli: bool, tag: &str, ref_steps: usize, replica_steps: usize) -> Checked {
     rep.eval(1);
     let core = core_id.is_some();
     let fail = |sig: String, what: String, detail: String| {
@@ -131,14 +135,14 @@ pub fn check_program(rep: &Report, p: &Program, text: &str, core_id: Option<Stri
             return Checked { ok: false, steps: 0 };
         }
     };
-    let rr = ref_run(p, 5000);
+    let rr = ref_run(p, ref_steps);
     if rr.end == RefEnd::StepLimit {
         rep.count("programs discarded: reference exceeded the step cap", 1);
         return Checked { ok: false, steps: 0 };
     }
     let flat = p.flatten();
     let (trace, end, regs) = with_fresh_vm(|vm| {
-        let t = run_replica(&a, start, vm, 20_000);
+        let t = run_replica(&a, start, vm, replica_steps);
         (t.trace, t.end, crate::machine::read_regs(vm))
     });
     let n = a.code.len();
@@ -195,7 +199,7 @@ pub fn check_program(rep: &Report, p: &Program, text: &str, core_id: Option<Stri
     if cli {
         // int 3 breakpoints prompt: answer every prompt with 'n' (transparency of stepping itself is C20's subject)
         let nexts = b"n\n".repeat(600);
-        let out = run_cli(text.as_bytes(), &CliOpts { env: vec![("VERIF_NOMEM", "1")], stdin: &nexts, ..Default::default() });
+        let out = run_cli(text.as_bytes(), &CliOpts { env: vec![("VERIF_NOMEM", "1")], stdin: &nexts, cap: 64 << 20, timeout_s: 60.0, ..Default::default() });
         rep.count("programs cross-checked on the real binary", 1);
         if out.timed_out {
             rep.inconclusive("cli watchdog");
@@ -225,7 +229,38 @@ pub fn check_program(rep: &Report, p: &Program, text: &str, core_id: Option<Stri
     Checked { ok, steps: rr.trace.len() }
 }
 
+/// programs longer than 65536 instructions: calls, returns and jumps whose indices do not fit 16 bits
+fn long_programs(rep: &Report) {
+    let shapes: Vec<usize> = vec![65_531, 65_532, 65_533, 65_534, 70_000];
+    par_for(shapes.len(), 1, |i| {
+        let filler = shapes[i];
+        let mut items: Vec<Item> = Vec::new();
+        items.push(Item::Proc("bump".into(), vec![Item::Ins(Ins::Un(Un::Inc, Loc::R16(R16::BX)))]));
+        items.push(Item::Proc("twice".into(), vec![Item::Ins(Ins::Call("bump".into())), Item::Ins(Ins::Call("bump".into()))]));
+        items.push(Item::Label("start".into()));
+        items.push(Item::Ins(Ins::Mov(Loc::R16(R16::AX), Src::Imm(0))));
+        items.push(Item::Ins(Ins::J(Jcc::Jmp, "far".into())));
+        for _ in 0..filler {
+            items.push(Item::Ins(Ins::Simple("cmc")));
+        }
+        items.push(Item::Label("far".into()));
+        items.push(Item::Ins(Ins::Call("bump".into())));
+        items.push(Item::Ins(Ins::Mov(Loc::R16(R16::SI), Src::Imm(7))));
+        items.push(Item::Ins(Ins::Call("twice".into())));
+        items.push(Item::Ins(Ins::Mov(Loc::R16(R16::CX), Src::Imm(2))));
+        items.push(Item::Label("back".into()));
+        items.push(Item::Ins(Ins::Call("bump".into())));
+        items.push(Item::Ins(Ins::J(Jcc::Loop, "back".into())));
+        items.push(Item::Ins(Ins::Mov(Loc::R16(R16::DI), Src::Imm(9))));
+        let p = Program { data: vec![], items };
+        let text = p.render_plain().text;
+        check_program_with(rep, &p, &text, Some(format!("long{}", filler)), i == 1 || i == 4, "long", 300_000, 600_000);
+    });
+    rep.count("programs longer than 65536 instructions (calls/jumps/loops beyond index 65535)", shapes.len() as u64);
+}
+
 pub fn run(rep: &Report) {
+    long_programs(rep);
     // (1) bounded-exhaustive small scope
     let t = rep.thorough();
     let maxlen = if t { 4 } else { 3 };
@@ -281,4 +316,4 @@ pub fn run(rep: &Report) {
     rep.floor("programs cross-checked on the real binary", rep.counter("programs cross-checked on the real binary"), 100);
 }
 
-pub const RULE: &str = "structured programs built from identity-carrying instructions (mov reg,<unique id>): forward jumps (taken and not taken, with known flag state), counted loops, procedures calling procedures, explicit ret in the middle and implied ret at the closing brace, macro uses, prints, int 3, hlt at random places, labels before instructions / procedures / macro uses / prints / at the end of the file; block sequences up to the scope are enumerated exhaustively (3 label/procedure placements), larger programs are random with random layout (several items per line, blank lines, with/without final newline). Oracle: a reference interpreter over the AST; the sequence of instruction indices handed to Interpreter::parse by a replica of the driver loop must equal the reference trace, end the same way and leave the same registers, and the real binary's hook trace must equal the replica's. Distinct = (trace length, number of taken transfers, end kind).";
+pub const RULE: &str = "structured programs built from identity-carrying instructions (mov reg,<unique id>): forward jumps (taken and not taken, with known flag state), counted loops, procedures calling procedures, explicit ret in the middle and implied ret at the closing brace, macro uses, prints, int 3, hlt at random places, labels before instructions / procedures / macro uses / prints / at the end of the file; block sequences up to the scope are enumerated exhaustively (3 label/procedure placements), programs of more than 65536 instructions place calls, returns, jumps and loops beyond instruction index 65535; larger programs are random with random layout (several items per line, blank lines, with/without final newline). Oracle: a reference interpreter over the AST; the sequence of instruction indices handed to Interpreter::parse by a replica of the driver loop must equal the reference trace, end the same way and leave the same registers, and the real binary's hook trace must equal the replica's. Distinct = (trace length, number of taken transfers, end kind).";
